@@ -18,6 +18,8 @@
 //===----------------------------------------------------------------------===//
 
 #include <pika/synchronization/barrier.hpp>
+
+#include <pika/config/verif_hooks.hpp>
 #include <pika/threading_base/thread_data.hpp>
 
 #include <atomic>
@@ -54,6 +56,7 @@ namespace pika::detail {
             while (true)
             {
                 if (current == end_node) current = 0;
+                PIKA_VERIF_POINT(::pika::verif::barrier_between_cas, this, static_cast<std::uint64_t>(round));
                 detail::barrier_phase_t expect = old_phase;
                 if (current == last_node && (current_expected & 1))
                 {
